@@ -95,17 +95,22 @@ def _formula_part(g, res):
     base = U.generic_array(g.fshape, tag=71)              # positive, all distinct
     for name in MEANS:
         fn = getattr(pf, name)
-        # (i) formula on a generic positive field
-        arrs = g.face_arrays(fn(g.cell(base)))
-        res["evals"] += len(g.faces)
-        for (ax, idx) in g.faces:
-            lo, hi = _adj(g, ax, idx)
-            want = ref_mean(name, base[lo], base[hi], sz[ax][idx[ax]], sz[ax][idx[ax] + 1])
-            res["nontrivial"] += 1
-            if not _close(arrs[ax][idx], want):
-                add("formula", name, "face axis %d %s is %.15g, width-weighted mean of its two cells is %.15g" % (ax, list(idx), arrs[ax][idx], want))
+        # (i) formula on a generic positive field, in O(1) units and in units where every value is
+        #     ~1e-12 / ~1e18 (a diffusivity in m2/s, a concentration in molecules per m3)
+        for mag in (1.0, 2.0 ** -40, 2.0 ** 60):
+            fldm = base * mag
+            arrs = g.face_arrays(fn(g.cell(fldm)))
+            res["evals"] += len(g.faces)
+            for (ax, idx) in g.faces:
+                lo, hi = _adj(g, ax, idx)
+                want = ref_mean(name, fldm[lo], fldm[hi], sz[ax][idx[ax]], sz[ax][idx[ax] + 1])
+                res["nontrivial"] += 1
+                if not _close(arrs[ax][idx], want, ulps=16 if name != "geometricMean" else 16 + 8 * abs(math.log(want))):
+                    add("formula" if mag == 1.0 else "formula_magnitude", name,
+                        "face axis %d %s is %.15g, width-weighted mean of its two cells (%.6g, %.6g) is %.15g"
+                        % (ax, list(idx), arrs[ax][idx], fldm[lo], fldm[hi], want))
         # (iii) constants
-        for c in (1.0, 0.375, 4096.0):
+        for c in (1.0, 0.375, 4096.0, 1e-9, 3e-13, 2.5e14):
             arrs = g.face_arrays(fn(g.cell(np.full(g.fshape, c))))
             res["evals"] += 1
             for ax in range(g.d):
@@ -226,6 +231,10 @@ def _upwind_part(g, res):
             arrs[ax][idx] = val
             pats.append(arrs)
     pats += [[np.abs(a) for a in gen], [-np.abs(a) for a in gen], [np.zeros_like(a) for a in gen], gen]
+    # velocities of very small / very large magnitude (creeping flow in SI units): only the sign counts
+    for mag in (2.0 ** -40, 2.0 ** -80, 2.0 ** 50, 5e-324):
+        pats += [[a * mag if mag > 1e-300 else np.sign(a) * mag for a in gen],
+                 [np.abs(a) * mag if mag > 1e-300 else np.abs(np.sign(a)) * mag for a in gen]]
     # every pattern is evaluated twice: on a fresh velocity object, and on one long-lived velocity
     # object whose components are overwritten in place between the calls (an in-place edit of the
     # velocity must be honoured by the next call)
